@@ -1,22 +1,57 @@
 package main
 
-import "runtime"
+import (
+	"runtime"
+	"sync/atomic"
+	"time"
+)
 
+// memStat samples the heap in use while a case runs: C07 bounds the PEAK of live memory, not the
+// cumulative allocation (pooled block buffers are legitimately recycled many times).
 type memStat struct {
-	total uint64
-	inuse uint64
+	base uint64
+	peak uint64
+	stop chan struct{}
+	done chan struct{}
 }
 
-func memBefore() memStat {
+func memBefore() *memStat {
 	runtime.GC()
 	var m runtime.MemStats
 	runtime.ReadMemStats(&m)
-	return memStat{m.TotalAlloc, m.HeapInuse}
+	s := &memStat{base: m.HeapInuse, peak: m.HeapInuse, stop: make(chan struct{}), done: make(chan struct{})}
+	go func() {
+		defer close(s.done)
+		t := time.NewTicker(2 * time.Millisecond)
+		defer t.Stop()
+		for {
+			select {
+			case <-s.stop:
+				return
+			case <-t.C:
+				var m runtime.MemStats
+				runtime.ReadMemStats(&m)
+				if m.HeapInuse > atomic.LoadUint64(&s.peak) {
+					atomic.StoreUint64(&s.peak, m.HeapInuse)
+				}
+			}
+		}
+	}()
+	return s
 }
 
-// memAfter reports how much was allocated since memBefore (cumulative bytes) and the heap in use now.
-func memAfter(b memStat) rec {
+// memAfter reports the peak growth of the heap in use since memBefore, in MiB.
+func memAfter(s *memStat) rec {
+	close(s.stop)
+	<-s.done
 	var m runtime.MemStats
 	runtime.ReadMemStats(&m)
-	return rec{"allocMiB": int((m.TotalAlloc - b.total) >> 20), "heapMiB": int(m.HeapInuse >> 20)}
+	if m.HeapInuse > s.peak {
+		s.peak = m.HeapInuse
+	}
+	grow := 0
+	if s.peak > s.base {
+		grow = int((s.peak - s.base) >> 20)
+	}
+	return rec{"allocMiB": grow, "heapMiB": int(m.HeapInuse >> 20)}
 }
